@@ -432,6 +432,11 @@ class RestartCheck(object):
             # the global "G90/G91 influence the extruder" feature switched at run time (a fresh plugin reads it at
             # start-up, a used one on SETTINGS_UPDATED)
             ops1.insert(rng.randrange(0, len(ops1) + 1), {"op": "settings", "set": {"g90e": not cfg["g90e"]}})
+        if rng.random() < 0.2:
+            # a home offset set in the earlier job (M206 survives neither a firmware reset nor a fresh plugin); the
+            # second file never mentions it
+            ops1.insert(rng.randrange(1, len(ops1) + 1), {"op": "line", "text": "M206" + "".join(
+                " %s%s" % (a, rng.choice(["-30", "12.5", "-7.25", "40"])) for a in rng.sample("XYZ", rng.randrange(1, 4)))})
         for _ in range(rng.choice([0, 0, 1, 2])):
             pos = rng.randrange(0, len(ops1) + 1)
             ops1.insert(pos, rng.choice([{"op": "event", "name": rng.choice(
